@@ -111,6 +111,9 @@ inductive Label where
   /-- user code of attempt (scenario, current) entered / left, harness clock -/
   | cbIn (scen att t : Nat)
   | cbOut (scen att t : Nat)
+  /-- the harness had to move the environment (open a gate, wake the parser, wait for a sleeper):
+      the runner made no progress on its own -/
+  | envMove
   | other
   deriving Repr, DecidableEq
 
@@ -245,6 +248,12 @@ def stepL (c : SCfg) (s : SState) (l : Label) : SState :=
   | .rx _ => s
   | .cbIn .. => s
   | .cbOut .. => s
+  | .envMove =>
+    -- work conservation: a completed attempt must be consumed (and its slot refilled) before the
+    -- runner goes idle
+    if s.endedUnconsumed > 0 && s.phase == .selecting then
+      s.note .K s!"runner idle although {s.endedUnconsumed} finished scenario(s) were not consumed (free slot not refilled)"
+    else s
   | .hookTake =>
     let s := s.inPhase [.init] "panic hook taken"
     { s with hookTaken := true, slots := .cont c.limit, expect := s.expect ++ [.one .started], phase := .loopTop }
@@ -268,7 +277,10 @@ def stepL (c : SCfg) (s : SState) (l : Label) : SState :=
       | none => s.note (match e with | .featStarted _ | .featFinished _ | .ruleStarted _ _ | .ruleFinished _ _ => .B | _ => .I)
                   s!"unexpected event {repr e}; expected {repr s.expect}"
   | .pPend => s
-  | .pWake => s
+  | .pWake =>
+    if s.endedUnconsumed > 0 && s.phase == .selecting then
+      s.note .K s!"runner idle although {s.endedUnconsumed} finished scenario(s) were not consumed (free slot not refilled)"
+    else s
   | .pOk f =>
     let s := if s.parserStopped then s.note .FF "feature ingested after the parser loop should have stopped" else s
     match c.feat? f with
